@@ -66,3 +66,33 @@ func init() {
 	vn.Register("types.ZZC10WF", ZZC10WF)
 	vn.Register("types.ZZC10BadMode", ZZC10BadMode)
 }
+
+// ZZC09Accepted (C09, termination under the *real* acceptance predicate): whatever set of
+// definitions the real checks admit, the later phases' kernels (EqualType on every pair of
+// definitions, Unfold, mode inference of an annotation naming each definition) return without
+// panicking — so a hole in the admission checks cannot turn into a hang or crash later.
+func ZZC09Accepted() {
+	k := vn.Param("K", 2)
+	d := vn.Param("D", 1)
+	p := ZZGenIProg(k, d)
+	defs := p.RealDefs()
+	SetModalityTypeDef(defs)
+	if SanityChecksTypeDefinitions(defs) != nil {
+		return
+	}
+	env := ProduceLabelledSessionTypeEnvironment(defs)
+	panicked := vn.Try(func() {
+		for i := range defs {
+			for j := range defs {
+				EqualType(defs[i].SessionType, defs[j].SessionType, env)
+			}
+			var ann SessionType = ConvertSessionTypeInitialToSessionType(NewLabelTypeInitial(defs[i].Name))
+			AddMissingModalities(&ann, env)
+			_ = SanityChecksType([]SessionType{ann}, defs)
+			Unfold(ann, env)
+		}
+	})
+	vn.Assert("C09.accepted-definitions-are-safe-to-use", vn.Not(panicked))
+}
+
+func init() { vn.Register("types.ZZC09Accepted", ZZC09Accepted) }
